@@ -15,7 +15,8 @@ META = {
             'attributes of the last successful writer; null-generation '
             'probes on a snapshot; distinct = (route, microversion band, '
             'transition in {create, update, empty, empty-new, delete, '
-            'rejected-first})',
+            'rejected-first})'
+            ' plus a concurrent part: the C05-C07 scenario catalogue (and provider-tree races) run under the transaction-granularity scheduler, the same oracle evaluated on every committed state / committing step of every explored interleaving',
     'floors': {'concurrent_schedules': 100,
                'attribute_checks': 100, 'rejected_first_writes': 5,
                'null_generation_probes_accepted': 5},
